@@ -118,9 +118,9 @@ def catalogue(n, origin=0, rng=None):
             elif isinstance(p0, str):
                 extra = [np.str_(p0)]
             elif isinstance(p0, pd.Timestamp):
-                extra = [p0.to_datetime64(), np.datetime64(p0.strftime('%Y-%m-%d')), p0.to_pydatetime(), datetime.datetime(p0.year, p0.month, p0.day)]
+                extra = [p0.to_datetime64(), np.datetime64(p0.strftime('%Y-%m-%d')), np.datetime64(p0.strftime('%Y-%m-%d'), 'ns'), np.datetime64(p0.strftime('%Y-%m-%d'), 's'), p0.to_pydatetime()]
             for x in extra:
-                if not any(type(x) is type(a) for a in alts):
+                if not any(type(x) is type(a) and repr(x) == repr(a) for a in alts):
                     alts.append(x)
     # absent labels of every hashable kind, whatever the span holds (none of them equals a label of any spec above)
     for spec in out:
